@@ -120,6 +120,7 @@ type LinEval struct {
 	at      ssa.Instruction // caller's call instruction (for versioned field resolution)
 	caller  *LinEval
 	depth   int
+	lenBusy map[ssa.Value]bool
 }
 
 func NewLin(fn *ssa.Function) *LinEval {
@@ -232,7 +233,7 @@ func (e *LinEval) Of(v ssa.Value) Lin {
 		return l
 	}
 	if e.busy[v] {
-		return LinBad("cyclic %s", v.Name())
+		return LinAtom("phi:" + e.fn.Name() + "." + v.Name())
 	}
 	e.busy[v] = true
 	l := e.of(v)
@@ -410,6 +411,18 @@ func (e *LinEval) recvVal() ssa.Value {
 
 // LenOf normalises the length of a slice value.
 func (e *LinEval) LenOf(v ssa.Value) Lin {
+	if e.lenBusy == nil {
+		e.lenBusy = map[ssa.Value]bool{}
+	}
+	if e.lenBusy[v] {
+		return LinAtom("len:" + e.fn.Name() + "." + v.Name())
+	}
+	e.lenBusy[v] = true
+	defer delete(e.lenBusy, v)
+	return e.lenOf(v)
+}
+
+func (e *LinEval) lenOf(v ssa.Value) Lin {
 	switch x := v.(type) {
 	case *ssa.UnOp:
 		if x.Op == token.MUL {
@@ -472,7 +485,7 @@ func (e *LinEval) LenOf(v ssa.Value) Lin {
 		l := e.LenOf(x.Edges[0])
 		for _, ed := range x.Edges[1:] {
 			if !l.Equal(e.LenOf(ed)) {
-				return LinBad("phi of different lengths")
+				return LinAtom("len:" + e.fn.Name() + "." + x.Name())
 			}
 		}
 		return l
@@ -541,7 +554,7 @@ func (e *LinEval) phi(p *ssa.Phi) Lin {
 						k = -k
 					}
 					if step != nil && *step != k {
-						return LinBad("phi %s with different steps", p.Name())
+						return LinAtom("phi:" + e.fn.Name() + "." + p.Name())
 					}
 					step = &k
 					continue
@@ -551,15 +564,15 @@ func (e *LinEval) phi(p *ssa.Phi) Lin {
 		inits = append(inits, e.Of(ed))
 	}
 	if len(inits) == 0 {
-		return LinBad("phi without init")
+		return LinAtom("phi:" + e.fn.Name() + "." + p.Name())
 	}
 	for _, in := range inits[1:] {
 		if !in.Equal(inits[0]) {
-			return LinBad("phi %s joins different values (%s vs %s)", p.Name(), inits[0], in)
+			return LinAtom("phi:" + e.fn.Name() + "." + p.Name())
 		}
 	}
 	if !inits[0].OK {
-		return inits[0]
+		return LinAtom("phi:" + e.fn.Name() + "." + p.Name())
 	}
 	if step == nil {
 		return inits[0]
@@ -611,4 +624,58 @@ func (e *LinEval) call(c *ssa.Call) Lin {
 // AtomCallOnField is kept for callers that want an opaque call atom.
 func (e *LinEval) AtomCallOnField(id string, f *types.Var) string {
 	return "c:" + ShortID(id) + "(" + f.Name() + ")"
+}
+
+// FieldAt is the value of base.f at instruction at (honouring the function's own stores).
+func (e *LinEval) FieldAt(base ssa.Value, f *types.Var, at ssa.Instruction) Lin {
+	return e.fieldAtLoad(base, f, at)
+}
+
+// LenFieldAt is len(base.f) at instruction at.
+func (e *LinEval) LenFieldAt(base ssa.Value, f *types.Var, at ssa.Instruction) Lin {
+	return e.lenFieldAtLoad(base, f, at)
+}
+
+// InCallee returns an evaluator for the static callee of call whose parameters are bound to the
+// caller's argument values, so callee-side values normalise to caller-side forms.
+func (e *LinEval) InCallee(call ssa.CallInstruction) *LinEval {
+	callee := StaticCallee(call)
+	if callee == nil || callee.Blocks == nil {
+		return nil
+	}
+	sub := NewLin(callee)
+	sub.caller = e
+	sub.depth = e.depth + 1
+	sub.at = call
+	for _, a := range call.Common().Args {
+		if isIntType(a.Type()) {
+			sub.args = append(sub.args, e.Of(a))
+		} else {
+			sub.args = append(sub.args, LinBad("non-int arg"))
+		}
+		sub.argKeys = append(sub.argKeys, e.Key(a))
+	}
+	if len(sub.argKeys) > 0 {
+		sub.recvKey = sub.argKeys[0]
+	}
+	return sub
+}
+
+// Fn returns the function the evaluator works on.
+func (e *LinEval) Fn() *ssa.Function { return e.fn }
+
+// Subst replaces atoms by linear forms.
+func (a Lin) Subst(m map[string]Lin) Lin {
+	if !a.OK {
+		return a
+	}
+	out := LinConst(a.K)
+	for k, c := range a.T {
+		if r, ok := m[k]; ok {
+			out = out.Add(r.Scale(c))
+		} else {
+			out = out.Add(LinAtom(k).Scale(c))
+		}
+	}
+	return out
 }
